@@ -41,6 +41,8 @@ var runners = map[string]func(tier string) runner{}
 var (
 	sitesPath   string
 	testdataDir string
+	// needRestart is set by a check that found the process state damaged beyond the current case
+	needRestart bool
 )
 
 func main() {
@@ -151,6 +153,11 @@ func cmdRun(args []string) {
 		}
 		rawAppend(pfd, fmt.Sprintf("E %d %d\n", i, len(vv)))
 		ran++
+		if needRestart {
+			// process state is damaged (a leaked lock): let the driver start a fresh worker at i+1
+			vf.Sync()
+			os.Exit(98)
+		}
 	}
 	st := r.Stats()
 	st["cases_run"] = ran
